@@ -111,7 +111,7 @@ P['C08'] = dict(
 )
 
 P['C20'] = dict(
-    rule='entry sequences (1..4 entries; v1/v2, signed, raw and dialect-decoded messages, times before/after 1970, at int64-scale values and with sub-microsecond offsets) with unencodable entries (v1 id > 255, message not in the dialect) at random positions; written through tlog.Writer with every budget of successful underlying writes (an error at the k-th Write for every k): per-entry outcome and file bytes compared; the file read back whole and cut at EVERY byte offset, n+3 reads each: sequence of entries / errors compared. Non-trivial: an entry was written or read.; the largest entry (signed v2 frame, 255-byte payload) in every eighth sequence; logs of 350..650 entries (several times the 4096-byte read buffer)',
+    rule='entry sequences (1..4 entries; v1/v2, signed, raw and dialect-decoded messages, times before/after 1970, at int64-scale values and with sub-microsecond offsets) with unencodable entries (v1 id > 255, message not in the dialect) at random positions; written through tlog.Writer with every budget of successful underlying writes (an error at the k-th Write for every k): per-entry outcome and file bytes compared; the file read back whole and cut at EVERY byte offset, n+3 reads each: sequence of entries / errors compared. Non-trivial: an entry was written or read.; the largest entry (signed v2 frame, 255-byte payload) in every eighth sequence; logs of 350..650 entries (several times the 4096-byte read buffer); the underlying writer follows an outcome oracle: besides the k-th-and-later-fail budgets, exactly the k-th underlying Write fails for every k (transient failure)',
     assumptions=['a failing underlying Write writes nothing', 'bufio.Reader modelled by the flat stream semantics (Model/Stream.v, proved equivalent to the chunked model)'],
     mismatch_meaning='file contents, reported errors or entries read back differ from the model proved to round-trip, to be truncation-safe and to leave no partial entry: concrete entry sequence / cut offset / failing write',
 )
@@ -125,7 +125,7 @@ def find_bad_c19(root):
     return 'bitmask enums whose zero / constants / union do not round-trip (with the failing values), then ordinary enums with inconsistent maps: ' + out[:2500]
 
 P['C19'] = dict(
-    rule='every enum type of the shipped dialects with text methods (registry regenerated from the sources on every run): zero, every defined constant, for bitmask enums random combinations of the single-bit flags and the union of all flags, for ordinary enums random/boundary unnamed values over the whole uint64 range incl. 2^63-1, 2^63, 2^63+1, 2^64-1; MarshalText then UnmarshalText compared with the model (text and value); parsing of garbage, numerals, names and name combinations. Non-trivial: the round trip produced a value.',
+    rule='every enum type of the shipped dialects with text methods (registry regenerated from the sources on every run): zero, every defined constant, for bitmask enums random combinations of the single-bit flags and the union of all flags, for ordinary enums random/boundary unnamed values over the whole uint64 range incl. 2^63-1, 2^63, 2^63+1, 2^64-1; MarshalText then UnmarshalText compared with the model (text and value); parsing of garbage, numerals, names and name combinations. Non-trivial: the round trip produced a value.; every parse also goes into a variable that already holds other bits; six enums of a dialect generated on the spot by the real generator (plain, bitmask, a flag above the entry count) are compiled with a probe and round-tripped the same way',
     assumptions=['Go maps labels_X / values_X are read from the source by go/ast and modelled as association lists'],
     mismatch_meaning='text rendering or parsing of an enum value differs from the model proved to round-trip: concrete enum type and value',
     find_bad=find_bad_c19,
@@ -185,14 +185,14 @@ P['C13'] = dict(
 
 P['C12'] = dict(
     bin='scen', compare=cmp_scen,
-    rule='real Node; Close() issued at scripted points: before the first event is consumed, reader blocked on an undelivered event, idle, writer blocked in the transport (a transport whose Write only returns on Close), channel mid-close (read error just before), traffic in flight, 100 pending writes — each with the consumer running and absent, 1..3 custom endpoints, 0..2 goroutines calling WriteMessageAll before, during and after Close, GOMAXPROCS 1/2/16; then network endpoints over loopback (TCP/UDP server with a peer, TCP client connected and in reconnect back-off, UDP client, UDP broadcast) and a node whose initialisation fails on its third endpoint. Observed: Close returns within 8 s, ranging over Events() ends, each custom transport closed exactly once, no goroutine running gomavlib/pion code is left, Write* callers returned without panic, TCP/UDP ports can be bound again. Every case expects the verdict ok. Non-trivial: every case.; read error while a Write is stuck in a serial device; a device handed out while Close is in progress must be closed; Close with a stuck channel whose queue has overflowed',
+    rule='real Node; Close() issued at scripted points: before the first event is consumed, reader blocked on an undelivered event, idle, writer blocked in the transport (a transport whose Write only returns on Close), channel mid-close (read error just before), traffic in flight, 100 pending writes — each with the consumer running and absent, 1..3 custom endpoints, 0..2 goroutines calling WriteMessageAll before, during and after Close, GOMAXPROCS 1/2/16; then network endpoints over loopback (TCP/UDP server with a peer, TCP client connected and in reconnect back-off, UDP client, UDP broadcast) and a node whose initialisation fails on its third endpoint. Observed: Close returns within 8 s, ranging over Events() ends, each custom transport closed exactly once, no goroutine running gomavlib/pion code is left, Write* callers returned without panic, TCP/UDP ports can be bound again. Every case expects the verdict ok. Non-trivial: every case.; read error while a Write is stuck in a serial device; a device handed out while Close is in progress must be closed; Close with a stuck channel whose queue has overflowed; Close() called directly after NewNode() (GOMAXPROCS 1/2/16, heartbeats on and off): no device may be opened after Close returned; odd but possible settings of the broadcast endpoint and a late-failing endpoint list: whatever the outcome of the initialisation, the local port is free after the failure or after Close',
     assumptions=['fairness of the Go scheduler and OS release of sockets are measured, not proved', 'goroutine-leak probe: stacks containing gomavlib or pion frames, polled up to 3 s'],
     mismatch_meaning='Close did not return, or left a goroutine, socket, open event channel or unclosed custom transport behind, or a Write* call blocked / panicked: the scenario description is the replay',
 )
 
 P['C14'] = dict(
     bin='scen', compare=cmp_scen,
-    rule='(1) pkg/timednetconn over a recording net.Conn: random Read/Write sequences, the recorded call trace (deadline armed before every call, deadline value within 20 percent of the configured timeout) compared with the model; (2) serial endpoint over fake devices (verif hook), reconnect period 60 ms: scripts of 2..6 outcomes (open failure / open ok then read error with a scripted cause): observed trace of open attempts, back-offs (inferred from gaps >= 0.7 period), open and close events with their cause compared with the provider model, two channels open at once flagged; (3) custom endpoint: close event carries the injected cause; (4) TCP client against a server that accepts, sends a frame and hangs up k times after a period with nothing listening: open/close alternation compared with the model; (5) TCP and UDP servers, idle timeout 200 ms: two peers get their own channels, the silent one is closed by a timeout inside [0.9 idle, 2 idle + 1.5 s], the talking one is not, a third peer is still accepted. Non-trivial: a trace with at least one channel.; in the serial scripts the devices with an odd cause have a Write stuck in the transport at the moment the read fails',
+    rule='(1) pkg/timednetconn over a recording net.Conn: random Read/Write sequences, the recorded call trace (deadline armed before every call, deadline value within 20 percent of the configured timeout) compared with the model; (2) serial endpoint over fake devices (verif hook), reconnect period 60 ms: scripts of 2..6 outcomes (open failure / open ok then read error with a scripted cause): observed trace of open attempts, back-offs (inferred from gaps >= 0.7 period), open and close events with their cause compared with the provider model, two channels open at once flagged; (3) custom endpoint: close event carries the injected cause; (4) TCP client against a server that accepts, sends a frame and hangs up k times after a period with nothing listening: open/close alternation compared with the model; (5) TCP and UDP servers, idle timeout 200 ms: two peers get their own channels, the silent one is closed by a timeout inside [0.9 idle, 2 idle + 1.5 s], the talking one is not, a third peer is still accepted. Non-trivial: a trace with at least one channel.; in the serial scripts the devices with an odd cause have a Write stuck in the transport at the moment the read fails; a TCP client against a server whose accept queue is full (listen backlog 0): attempts end in dial time-outs, then the server accepts and the client must connect',
     assumptions=['deadline enforcement is the operating system\'s; expiry is checked inside a tolerant bracket (a deadline firing inside a frame surfaces as a parse error first, the next read closes the channel)', 'back-offs are observed through timing with tolerance'],
     mismatch_meaning='the observed lifecycle of channels (attempts, back-offs, open/close events and causes, idle expiry) differs from the provider model proved to reconnect after every failure with at most one channel open',
 )
